@@ -35,8 +35,9 @@
 (*     two ends anyway) contracted and unchanged are both accepted;        *)
 (*     without replace_short_edges it is forbidden.                        *)
 (*  R6 two contractible interfaces that share an end ("chain") cannot both *)
-(*     be contracted to their own midpoints: there the new vertex is only  *)
-(*     required to lie in the bounding box of the contractible ends.       *)
+(*     be contracted to their own midpoints: a member of a chain may be    *)
+(*     contracted or left, and a new vertex of a chain is only required to *)
+(*     lie in the bounding box of the contractible ends.                   *)
 (*  R7 "replaced by an ordered subsequence": the surviving points of the   *)
 (*     interface, in order, are joined pairwise by mesh edges afterwards;  *)
 (*     an end that was contracted away is represented by a new vertex.     *)
@@ -132,7 +133,7 @@ C11Eval(b, a, lk, ne, rse, eps) ==
       chainOK(p)  == LET t == image(p) IN Len(t) >= 2 /\ \A k \in 1..(Len(t) - 1) : joined(t[k], t[k + 1])
       subseqOK    == \A p \in PB : (p \in CT /\ may /\ gone(p)) \/ chainOK(p)
       shortOK     == \A p \in PB : Len(p) <= ne + 1 => \A i \in 2..(Len(p) - 1) : alive(p[i])
-      contractedOK == must => \A p \in CT : gone(p)
+      contractedOK == must => \A p \in CT : gone(p) \/ chain(p)                       \* R6
       \* ---- the new vertices (R5, R6) ----
       doneCT      == IF may THEN {p \in CT : gone(p)} ELSE {}
       badCT       == {p \in doneCT : ~\E n \in newA : posOK(n, p)}
